@@ -16,7 +16,7 @@ import numpy as np
 
 from .. import bootstrap as B
 from ..common import (
-    ALL_METRICS, ASYMMETRIC, OutOfDomain, Stop, abits, arr, dig, first_diff, gen_labels, gen_matrix,
+    ALL_METRICS, ASYMMETRIC, REAL_DOMAIN, OutOfDomain, Stop, abits, arr, dig, first_diff, gen_labels, gen_matrix,
     iarr, lib_call, metric_class, style_for_metric, subgraph_state,
 )
 from ..engine import EventLog, Outcome, SimTimeout, bump, h64, library_site, raised_violation, violation
@@ -46,8 +46,8 @@ KINDS = ("supervised", "semi", "unsup")
 
 def arms(tier):
     if tier == "thorough":
-        return [("mixed", 300_000), ("restart", 4_000)]
-    return [("mixed", 14_000), ("restart", 200)]
+        return [("mixed", 1_600_000), ("restart", 12_000)]
+    return [("mixed", 60_000), ("restart", 400)]
 
 
 def hist_slice(tier):
@@ -90,7 +90,7 @@ def gen_case(rng, arm, tier, k=0):
     ext = rng.choice(("txt", "csv"))
     mk = rng.randint(1, max(1, min(4, len(train) - 1)))
     case = {"kind": kind, "metric": metric, "style": style, "ext": ext, "D": D, "Y": Y, "train": train, "unl": unl, "test": test, "max_k": mk, "min_k": rng.randint(1, mk)}
-    metric2 = rng.choice(ALL_METRICS)
+    metric2 = rng.choice(ALL_METRICS if style not in ("generic",) else sorted(REAL_DOMAIN))
     ops = [["pre", 0, metric]]
     models = 0
     files = {0}
@@ -198,7 +198,14 @@ def run_case(case):
                     bump(out.probes, "path_overwritten")
                     if any(md["f"] == f for md in models):
                         bump(out.probes, "file_overwritten_after_a_model_read_it")
-                lib_call("pre_compute_distance(.%s)" % ext, B.general.pre_compute_distance, D, paths[f], metric)
+                ra = attempt(B.general.pre_compute_distance, D, paths[f], metric)
+                if not ra[0]:
+                    # the metric may be undefined on this data (e.g. a zero denominator): only a
+                    # disagreement with evaluating the same metric in memory is C10's business
+                    rb = attempt(in_memory, metric)
+                    consistent(ra, rb, "pre_compute_distance", k, metric, facts, out)
+                    file_metric[f] = None  # content unspecified after a failed write
+                    continue
                 file_metric[f] = metric
                 file_gen[f] += 1
                 log.add("pre", f, metric)
